@@ -3,7 +3,7 @@
    No proofs in this file. *)
 From Coq Require Import ZArith List Bool String.
 Import ListNotations.
-Require Import OV.Gen.VersionTables OV.Gen.VersionSchemas OV.Version.Model OV.Version.Adapters OV.Version.Schema OV.Version.Std.
+Require Import OV.Gen.VersionTables OV.Gen.VersionSchemas OV.Gen.VersionDocSteps OV.Version.Model OV.Version.Adapters OV.Version.Schema OV.Version.Std.
 Local Open Scope Z_scope.
 Local Open Scope string_scope.
 
@@ -12,6 +12,12 @@ Local Open Scope string_scope.
    tables give, so a new exception (newer onnx, removed adapter) or a vanished one breaks the proof.
    Each entry is a finding, replayed on the real code by harness/c10.py (EXCEPTION_WITNESSES). *)
 Definition schema_exceptions : list (string * Z) := [("QuantizeLinear", 19)].
+
+(* the version steps documented as BEHAVIOURAL (Gen/VersionDocSteps.v) that have no adapter.  Hand-maintained; proved exact.
+   AveragePool/MaxPool 22: with ceil_mode a window starting in the right padding is dropped -- replayed: finding
+   (the output shape ONNX infers below 22 is rejected at 22); Cast 24: saturating cast of +-Inf to the FNUZ float8 types --
+   onnx.reference and onnxruntime implement one behaviour for all opsets, observed equal before/after. *)
+Definition doc_behavioural_exceptions : list (string * Z) := [("AveragePool", 22); ("Cast", 24); ("MaxPool", 22)].
 
 (* operators for which no adapter is registered at any version: the conversion loop only re-stamps them *)
 Definition q_std : string -> bool := no_adapter registry_keys.
